@@ -78,6 +78,8 @@ static Outcome runCase(const KV& c)
     o.cls(std::string("problem_") + std::to_string(cfg.problem));
     o.cls(std::string("geometry_") + std::to_string(cfg.geometry));
     o.cls(cfg.dirbc ? "dirbc" : "across_origin");
+    o.cls(cfg.aniso ? "anisotropic_base_grid" : "uniform_base_grid");
+    const std::string an = cfg.aniso ? "aniso_" : "";
     Err e[2][2];
     for (int ex = 0; ex < 2; ex++)
         for (int d = 0; d < 2; d++) {
@@ -110,7 +112,7 @@ static Outcome runCase(const KV& c)
                 continue;
             }
             const double p = std::log2(ec / ef);
-            o.mx(std::string(ex ? "neg_order_extrapolated_" : "neg_order_plain_") + (norm ? "max" : "l2"), -p);
+            o.mx(an + std::string(ex ? "neg_order_extrapolated_" : "neg_order_plain_") + (norm ? "max" : "l2"), -p);
             char buf[300];
             snprintf(buf, sizeof buf, "%s, %s norm: errors %.4e (%dx%d) -> %.4e (%dx%d), observed order %.3f", ex ? "implicit extrapolation" : "no extrapolation",
                      nn[norm], ec, e[ex][0].nr, e[ex][0].nt, ef, e[ex][1].nr, e[ex][1].nt, p);
@@ -127,8 +129,16 @@ static Outcome runCase(const KV& c)
                     o.cnt("excluded_known_F12");
                     continue;
                 }
+                // known finding F22: on an anisotropic base grid (mesh width jumps by a factor of two at the refined
+                // region) the max-norm order with extrapolation is 2.8-3.0; the l2 order stays above 3.4
+                const bool f22 = !f12 && cfg.aniso >= 1 && norm == 1 && p >= 2.6 && p <= 3.0;
+                if (f22 && !includeKnown) {
+                    o.cnt("excluded_known_F22");
+                    continue;
+                }
                 if (!(p > 3.0)) {
-                    o.fail(f12 ? "order_extrapolated_F12" : "order_extrapolated", std::string(buf) + " is not better than third order");
+                    o.fail(f12 ? "order_extrapolated_F12" : (f22 ? "order_extrapolated_F22" : "order_extrapolated"),
+                           std::string(buf) + " is not better than third order");
                     return o;
                 }
             }
@@ -182,7 +192,9 @@ static KV genCase()
     s.R0 = s.dirbc ? s.Rmax * rpick({1e-5, 1e-3, 1e-2, 0.1}) : s.Rmax * rpick({1e-5, 1e-6, 1e-8});
     s.nr_exp     = 4;
     s.ntheta_exp = -1;
-    s.aniso      = 0;
+    // "uniform refinement" is divideBy2 applied to the base grid; the base grid itself may be anisotropic (refined by
+    // anisotropic_factor around the profile's steep region): a third of the cases
+    s.aniso = rweighted({2, 1});
     const char* t = getenv("VERIF_TIER");
     const bool thorough = t && std::string(t) == "thorough";
     // refinement pair k -> k+1; finest 129x256 (quick) or 257x512 (thorough; across-origin with tiny R0 stays at 129)
